@@ -504,24 +504,36 @@ def r_pad_sib(ctx: RuleCtx, col: Collector):
 
 # ------------------------------------------------------------------------------------------------------- domain
 def _horner(e: ast.AST) -> Optional[Tuple[List[str], List[str]]]:
-    """(digits least-significant first, radices least-significant first) of (a*R1 + b)*R0 + c."""
+    """(digits least-significant first, radices least-significant first) of a mixed-radix Horner form, written as
+    (a*R1 + b)*R0 + c or c + R0*(b + R1*a) (any operand order)."""
     digits, radices = [], []
     cur = e
     while True:
         if isinstance(cur, ast.BinOp) and isinstance(cur.op, ast.Add):
-            hi, lo = cur.left, cur.right
-            if isinstance(lo, ast.BinOp) and isinstance(lo.op, ast.Mult) and not (isinstance(hi, ast.BinOp) and isinstance(hi.op, ast.Mult)):
-                hi, lo = lo, hi
-            if isinstance(hi, ast.BinOp) and isinstance(hi.op, ast.Mult):
+            sides = [cur.left, cur.right]
+            prods = [x for x in sides if isinstance(x, ast.BinOp) and isinstance(x.op, ast.Mult)]
+            if len(prods) == 1:
+                hi = prods[0]
+                lo = sides[1] if sides[0] is hi else sides[0]
                 digits.append(norm(lo))
-                inner, rad = hi.left, hi.right
+                # which factor is the radix?  the one that is not itself a sum of products / a bare index
+                a, b = hi.left, hi.right
+                inner, rad = (a, b)
+                if _looks_like_radix(a) and not _looks_like_radix(b):
+                    inner, rad = b, a
                 radices.append(norm(rad))
                 cur = inner
                 continue
             return None
         digits.append(norm(cur))
         break
-    return digits, radices
+    return (digits, radices) if radices else None
+
+
+def _looks_like_radix(x: ast.AST) -> bool:
+    """self.nelx, (self.nelx + 1), max(self.nelz, 1): an expression over the grid sizes only."""
+    names = [n for n in ast.walk(x) if isinstance(n, ast.Name)]
+    return all(n.id in ("self", "max") for n in names) and any(isinstance(n, ast.Attribute) for n in ast.walk(x))
 
 
 def _strip_parens(t: str) -> str:
@@ -650,8 +662,65 @@ def r_node_table(ctx: RuleCtx, col: Collector):
                 col.bad(where_of(init), init.rel, line_of(n), f"node_numbering[{k}] = {vals}",
                         f"expected {want} under guard {need_guard} (found guard {guard}): connectivity, shape functions "
                         f"and element matrices would refer to a different corner")
+    if n_found == 0:
+        # computed table: fold the defining expression for elemnodes = 2, 4, 8
+        d = [n.value for n in ast.walk(init.node) if isinstance(n, ast.Assign) and norm(n.targets[0]) == f"{s}.node_numbering"]
+        folded = None
+        if d:
+            try:
+                folded = {en: _const_eval(d[-1], {f"{s}.elemnodes": en, f"{s}.dim": dm}) for en, dm in ((2, 1), (4, 2), (8, 3))}
+            except Exception:
+                folded = None
+        if folded is None:
+            raise AnalysisError("node table: neither literal entries nor a foldable defining expression found")
+        for en, tab in folded.items():
+            for k in range(en):
+                want = [1 if (k >> dd) & 1 else -1 for dd in range(3)]
+                dim = {2: 1, 4: 2, 8: 3}[en]
+                got = list(tab[k])
+                if got[:dim] == want[:dim]:
+                    col.ok(where_of(init), init.rel, line_of(d[-1]), f"node_numbering[{k}] for {en} nodes = {got}", "bits of k (folded)")
+                else:
+                    col.bad(where_of(init), init.rel, line_of(d[-1]), f"node_numbering[{k}] for {en} nodes = {got}",
+                            f"expected {want[:dim]} in the first {dim} component(s)")
+        return
     if n_found < 8:
         raise AnalysisError(f"node table: only {n_found} literal entries found")
+
+
+def _const_eval(e: ast.AST, env: Dict[str, object]):
+    """Constant folding of a literal integer expression (names bound in `env`; range / comprehensions / conditional
+    expressions / integer arithmetic only).  Raises on anything else."""
+    t = "".join(ast.unparse(e).split()) if isinstance(e, (ast.Attribute, ast.Name)) else None
+    if t is not None and t in env:
+        return env[t]
+    if isinstance(e, ast.Constant) and isinstance(e.value, (int, float)):
+        return e.value
+    if isinstance(e, ast.UnaryOp) and isinstance(e.op, (ast.USub, ast.UAdd)):
+        v = _const_eval(e.operand, env)
+        return -v if isinstance(e.op, ast.USub) else v
+    if isinstance(e, ast.BinOp):
+        a, b = _const_eval(e.left, env), _const_eval(e.right, env)
+        ops = {ast.Add: lambda: a + b, ast.Sub: lambda: a - b, ast.Mult: lambda: a * b, ast.FloorDiv: lambda: a // b,
+               ast.Mod: lambda: a % b, ast.RShift: lambda: a >> b, ast.LShift: lambda: a << b, ast.BitAnd: lambda: a & b,
+               ast.BitOr: lambda: a | b, ast.Pow: lambda: a ** b}
+        return ops[type(e.op)]()
+    if isinstance(e, ast.Compare) and len(e.ops) == 1:
+        a, b = _const_eval(e.left, env), _const_eval(e.comparators[0], env)
+        return {ast.Eq: a == b, ast.NotEq: a != b, ast.Lt: a < b, ast.LtE: a <= b, ast.Gt: a > b, ast.GtE: a >= b}[type(e.ops[0])]
+    if isinstance(e, ast.IfExp):
+        return _const_eval(e.body, env) if _const_eval(e.test, env) else _const_eval(e.orelse, env)
+    if isinstance(e, (ast.List, ast.Tuple)):
+        return [_const_eval(x, env) for x in e.elts]
+    if isinstance(e, ast.Call) and isinstance(e.func, ast.Name) and e.func.id == "range":
+        return list(range(*[_const_eval(a, env) for a in e.args]))
+    if isinstance(e, ast.ListComp) and len(e.generators) == 1 and isinstance(e.generators[0].target, ast.Name) and not e.generators[0].ifs:
+        g = e.generators[0]
+        out = []
+        for v in _const_eval(g.iter, env):
+            out.append(_const_eval(e.elt, dict(env, **{g.target.id: v})))
+        return out
+    raise ValueError("not foldable")
 
 
 # ------------------------------------------------------------------------------------------------------ overhang
